@@ -368,13 +368,13 @@ theorem posBump_eq (cx : Ctx) (k : Nat) :
   rw [hs]; simp only [Ctx.rep, hp]
   split <;> rfl
 
-theorem at_posBump (cx : Ctx) (k : Nat) : atOff (posBump cx k) = (cx.init.pos : Int) + k := by
-  rw [posBump_eq]; simp [atOff]
+theorem at_posBump (cx : Ctx) (k : Nat) : atOff cx (posBump cx k) = k := by
+  rw [posBump_eq]; simp only [atOff]; omega
 
 theorem bol_posBump (cx : Ctx) (k : Nat) (hk : k ≤ cx.inp.size) :
     ∃ b, IsLineBegin cx.eol cx.inp k b ∧
-      beginOfLineOff (posBump cx k) =
-        (cx.init.pos : Int) + b - (if b = 0 then (cx.init.col : Int) - 1 else 0) := by
+      beginOfLineOff cx (posBump cx k) =
+        (b : Int) - (if b = 0 then (cx.init.col : Int) - 1 else 0) := by
   obtain ⟨b, hb, hcol⟩ := scan_col cx.eol cx.inp cx.init.line cx.init.col k hk
   refine ⟨b, hb, ?_⟩
   rw [lineBreak_eq_ch] at hcol
@@ -384,14 +384,16 @@ theorem bol_posBump (cx : Ctx) (k : Nat) (hk : k ≤ cx.inp.size) :
   · next h0 => simp only [h0, if_true] at hcol; omega
   · next h0 => simp only [h0, if_false] at hcol; omega
 
-theorem eol_posBump (cx : Ctx) (k : Nat) (hk : k ≤ cx.inp.size) (h0 : cx.init.pos = 0) :
+theorem eol_posBump (cx : Ctx) (k : Nat) (hk : k ≤ cx.inp.size) :
     ∃ st, endOfLineRun cx (posBump cx k) = some st ∧ IsLineEnd cx.eol cx.inp k st.cur.pos ∧
       st.oob = false := by
   have ha := at_posBump cx k
-  have hp : (posBump cx k).pos = k := by rw [posBump_eq]; simp [h0]
-  simp only [endOfLineRun, atOff, hp]
-  have hle : ((k : Nat) : Int) ≤ (cx.inp.size : Int) := by omega
-  simp only [hle, if_true]
+  have hp : (posBump cx k).pos = cx.init.pos + k := by rw [posBump_eq]
+  have hsub : cx.init.pos + k - cx.init.pos = k := by omega
+  simp only [endOfLineRun, atOff, hp, hsub]
+  have hle : (0 : Int) ≤ ((cx.init.pos + k : Nat) : Int) - (cx.init.pos : Int) ∧
+      ((cx.init.pos + k : Nat) : Int) - (cx.init.pos : Int) ≤ (cx.inp.size : Int) := by omega
+  simp only [hle, and_self, if_true]
   obtain ⟨_, r2, r3⟩ := untilAtEolf_spec cx (cx.inp.size - k + 1)
     { cur := ⟨k, 1, 1⟩, endp := cx.inp.size } rfl hk (by show cx.inp.size - k < _; omega)
   exact ⟨_, rfl, r2, r3⟩
